@@ -327,7 +327,12 @@ pub fn tidy_bank_program(rng: &mut Rng) -> Vec<u8> {
         } else {
             s.push_str(&format!("#res {}\n", rng.range(1, *size)));
         }
-        if rng.chance(1, 2) {
+        let aligned = rng.chance(1, 4);
+        if aligned {
+            // padding up to a boundary that may lie at or past the end of the bank
+            s.push_str(&format!("#align {}\n", rng.pick(&["16", "32", "64", "128", "256"])));
+        }
+        if rng.chance(1, if aligned { 4 } else { 2 }) {
             s.push_str(&format!("{}_end:\n", names[i]));
         }
     }
